@@ -23,6 +23,7 @@ inductive Card where
 inductive Kind where
   | prim (ty : Nat)     -- a primitive of that item type
   | struct              -- a nested structure
+  | enumOrStruct        -- an Enumeration or a structure (KMIP 2.0 attribute references)
   | any
   deriving DecidableEq, Repr
 
@@ -53,6 +54,8 @@ def itemTag : Item → Nat
 def kindOk : Kind → Item → Bool
   | .prim ty, .prim _ pv => pv.typeCode == ty
   | .struct, .struct _ _ => true
+  | .enumOrStruct, .struct _ _ => true
+  | .enumOrStruct, .prim _ pv => pv.typeCode == 5
   | .any, _ => true
   | _, _ => false
 
